@@ -1294,6 +1294,10 @@ func genTxHistory(rng *rand.Rand, steps int, idx int) []string {
 			gasLimit = pick(rng, uint64(1)<<63, ^uint64(0), (uint64(1)<<63)+1, 1<<62)
 		}
 		size := pick(rng, 0, 1, 10, 50, 50, 100, 100, 500)
+		if rng.Intn(40) == 0 {
+			// caller-declared sizes beyond 32 bits (Size is an int64; every limit is a uint32)
+			size = pick(rng, 1<<32, (1<<32)+64, (1<<33)+1, (1<<32)-1)
+		}
 		fee := new(big.Int).Mul(new(big.Int).SetUint64(gasLimit), new(big.Int).SetUint64(price))
 		switch rng.Intn(12) {
 		case 0:
